@@ -321,7 +321,7 @@ def picked_index(case, val):
         if var["ret"] in ("int", "nat") and v == i and not isinstance(v, float):
             return i
     cands = [i for i, var in enumerate(case["variants"]) if var["ret"] == "T"]
-    return cands[0] if len(cands) == 1 else None
+    return cands[0] if len(cands) == 1 and abs(v) >= 100 else None
 
 
 def evaluate(cases):
@@ -362,18 +362,20 @@ def evaluate(cases):
             else:
                 p = picked_index(cases[k], fv)
                 e = r["expected"]
-                rel = "other" if p is None else ("later" if p > e else "earlier")
                 r["status"] = "violation"
-                r["bucket"] = f"wrong_variant.picked_{rel}"
+                r["bucket"] = "wrong_variant"
                 r["detail"] = (f"direct calls: {r['directs']} -> expected variant {e} (emits {dv[0]!r}); the overloaded "
-                               f"call emits {fv[0]!r}" + (f" = variant {p}" if p is not None else ""))
+                               f"call emits {fv[0]!r}" + (f" (the value variant {p} returns)" if p is not None else ""))
     return _finish(cases, sts)
 
 
 def _finish(cases, sts):
+    """bucket = symptom + call-site position (the argument shape is a label, not a root cause)"""
     for case, r in zip(cases, sts):
-        if r["status"] == "violation" and not r["bucket"].startswith(("crash.", "invalid", "panic")):
-            r["bucket"] += f".{case['pos']}.{shape(case)}"
+        if r["status"] == "violation" and not r.get("final"):
+            r["final"] = True
+            if not r["bucket"].startswith(("crash.", "invalid", "panic")):
+                r["bucket"] += f".{case['pos']}"
     return sts
 
 
